@@ -89,8 +89,10 @@ class ParseStream:
                     if max_trees is None or gen.count_derivations(g, w) <= max_trees:
                         self.pairs.append((g, bool(c['strict']), list(w)))
             self.stats['corpus_pairs'] = len(self.pairs)
-        for gi in range(n_families):
-            g = gen.family_grammar(rng, costs=costs)
+        # every family gets its quota (a third of n_families each), so that no family depends on the luck of a draw
+        per = (n_families + 2) // 3
+        for gi in range(per * len(gen.FAMILIES) if n_families else 0):
+            g = gen.family_grammar(rng, costs=costs, fam=gen.FAMILIES[gi % len(gen.FAMILIES)])
             if not g.well_formed(False):
                 continue
             self.stats['family_grammars'] = self.stats.get('family_grammars', 0) + 1
